@@ -108,19 +108,22 @@ func (t *tally) flush() {
 func q(s string) string { return fmt.Sprintf("%q", s) }
 
 func Run(c *core.Ctx) {
-	c.Rule = "strings: every code point 0..0x2FFF singly (surrogates and out-of-range as invalid bytes), code points paired before/after each of 26 metacharacters, invalid lead/continuation patterns, XSS vectors and mutations, random strings over an adversarial alphabet; values: random nested slices/maps/structs of those strings with numbers, bools, nil; names: every string over a 10-symbol alphabet up to the tier's length; generated probe templates rendered through the real generator; script templates: every literal body of up to 3 (thorough 4) pieces over {x, escaped backslash, escaped quote, other quote, //, /*, \\n, backslash runs} for each quote kind followed by / holding a hole, plus a random grammar of statements, literals with escape sequences, comments and holes. distinct non-trivial = distinct inputs containing a rune the escapers must act on (control, quote, $, \\, < > & / +, U+2028/9) or an invalid byte; for names, distinct accepted names; for script templates, distinct templates whose text holds a backslash or a slash"
+	c.Rule = "strings: every code point 0..0x2FFF singly (surrogates and out-of-range as invalid bytes), code points paired before/after each of 26 metacharacters, invalid lead/continuation patterns, XSS vectors and mutations, random strings over an adversarial alphabet; values: random nested slices/maps/structs of those strings with numbers, bools, nil; names: every string over a 10-symbol alphabet up to the tier's length; generated probe templates rendered through the real generator; script templates: every literal body of up to 3 (thorough 4) pieces over {x, escaped backslash, escaped quote, other quote, //, /*, \\n, backslash runs} for each quote kind followed by / holding a hole, plus a random grammar of statements, literals with escape sequences, comments and holes; typed values: ~80 Go types of an in-literal hole (named int/uint/float/bool kinds with MarshalText or MarshalJSON returning a string, an object, an array, padded text; plain named scalars and Stringers; string kinds other than string; structs with marshalers, `,string` tags, embedded fields; json.RawMessage; pointers incl. nil and pointer-receiver marshalers; maps with TextMarshaler keys; slices, arrays, []byte; error values; json.Number, time.Time, big.Int, big.Float, net.IP, url.URL, slog.Level; the same held in interfaces; values that fail to marshal) x 8 fixed label triples x 5 JSON forms, then random labels, each called with its static type and as any; parse histories: one to three earlier files in the same process - script templates cut off at every byte offset (small bases, each quote kind) or a random one, with one of 14 malformed {{ }} expressions at a hole, a quote dropped or added, the end tag missing or cut, broken markup after the element, or unchanged - or an earlier script element of the same file (same templ / earlier templ), followed by a template already parsed and judged. distinct non-trivial = distinct inputs containing a rune the escapers must act on (control, quote, $, \\, < > & / +, U+2028/9) or an invalid byte; for names, distinct accepted names; for script templates, distinct templates whose text holds a backslash or a slash; for typed values, distinct (type, JSON text) pairs whose JSON text holds such a rune; for histories, distinct last earlier files that fail to parse or end inside a literal or comment"
 	c.Trusted = append(c.Trusted,
 		"specification spec/JsLex.v (JavaScript string-literal lexer and string values, script-data end condition; compared with node's evaluator in the thorough tier)",
 		"specification spec/JsScript.v (lexer for a whole script element's text over templates with holes; its string mode is proved to make the decisions of JsLex.lex_go)",
 		"lib/Utf8.v tied to unicode/utf8 on every generated string",
 		"translator: the two replacement tables are dumped from the live code into gen/Tables03.v; their side-conditions are re-proved on every build",
 		"extraction: ExtrOcamlBasic only; ocaml/driver.ml (hex line protocol, byte<->int by constructor index, asserted at start-up)",
-		"number tokens are taken from strconv/encoding/json as an oracle (alphabet checked); Go harness internal/c03 and the Go toolchain")
+		"number tokens are taken from strconv/encoding/json as an oracle (alphabet checked); Go harness internal/c03 and the Go toolchain",
+		"typed values: json.Marshal is the oracle for the JSON text of a Go value of any type (C03_script_content_inside_any_type assumes nothing about that text)",
+		"parse histories: the compiled probe binary replays a sequence of files in a new process (sample on every run; every reported history-dependent failure)")
 	c.Assume = append(c.Assume,
 		"the page is decoded as UTF-8: an invalid byte of a Go string reaches the script as U+FFFD (as everywhere else in the document); the byte triple E2 80 A8/A9 is U+2028/9 wherever it occurs",
 		"inside '...' and \"...\" U+2028/9 are treated as line terminators (pre-ES2019 engines) - conservative",
 		"templ.JSExpression and JSUnsafeFuncCall are trusted by type, like templ.Raw",
 		"the static JavaScript around a {{ }} hole is the author's: the quote tracker of parser/v2/scriptparser.go is modelled (model/JsTrack.v), tied to the parser on every generated script template and proved to agree with the specification's lexer on the fragment of C03_tracker_agrees_partial; regular-expression literals, ${ } interpolations inside template literals and Annex-B HTML-like comments are outside the reach of both",
+		"parse histories are sequential (one parse at a time in one process); parses running concurrently in one process are not produced",
 		"script family: a {{ directly after a backslash, and {{ inside a comment, are not Go expressions in templ and are not generated; values are strings (valid UTF-8 when two holes are adjacent inside one literal: the browser's decoder, not the byte triple, decides what a split E2 80 A8 is)")
 	c.Proofs()
 
@@ -128,6 +131,7 @@ func Run(c *core.Ctx) {
 	famUtf8(c, t)
 	famStrings(c, t)
 	famValues(c, t)
+	famTyped(c, t)
 	famNames(c, t)
 	famCalls(c, t)
 	famJSONScript(c, t)
